@@ -104,6 +104,34 @@ template <typename X> static std::string run_case(const Case& c) {
   o.b("big", big).i("end", 0);
   return o.str();
 }
+
+// ---- C09 on powersets of grids (mode "gcover"): covering laws.  The rows of the case are dealt round-robin to up to three grids.
+static bool g_gcover = false;
+static std::string run_gcover(const Case& c) {
+  typedef Pointset_Powerset<Grid> PG;
+  std::vector<Grid> gs;
+  for (int h = 0; h < 3; ++h) { Grid g(c.n, UNIVERSE); size_t idx = 0; bool any = false;
+    for (size_t i = 0; i < c.cs.size(); ++i, ++idx) if (idx % 3 == (size_t) h && c.cs[i].first == "eq") { g.add_constraint(mkc("eq", c.cs[i].second, c.n)); any = true; }
+    for (size_t i = 0; i < c.cgs.size(); ++i, ++idx) if (idx % 3 == (size_t) h) { g.add_congruence(mkcg(c.cgs[i].second, c.cgs[i].first, c.n)); any = true; }
+    if (any && !g.is_empty()) gs.push_back(g); }
+  vj::Obj o; o.s("e", "GCover").i("n", c.n).i("w", c.w).i("nd", gs.size());
+  if (gs.empty()) { o.b("big", true).i("end", 0); return o.str(); }
+  PG X(c.n, EMPTY), Xr(c.n, EMPTY), Y(c.n, EMPTY);
+  for (size_t i = 0; i < gs.size(); ++i) X.add_disjunct(gs[i]);
+  for (size_t i = gs.size(); i-- > 0; ) Xr.add_disjunct(gs[i]);
+  Y.add_disjunct(gs[0]);
+  o.raw("X", Desc<PG>::of(X, c.n)).raw("Y", Desc<PG>::of(Y, c.n));
+  o.b("refl_covers", X.geometrically_covers(X)).b("refl_equals", X.geometrically_equals(X));
+  o.b("rev_covers", X.geometrically_covers(Xr)).b("covers_rev", Xr.geometrically_covers(X)).b("rev_equals", X.geometrically_equals(Xr));
+  o.b("y_covers_x", Y.geometrically_covers(X)).b("x_covers_y", X.geometrically_covers(Y));
+  { PG Xo(X); Xo.omega_reduce(); o.b("omega_equals", Xo.geometrically_equals(X)).raw("Xo", Desc<PG>::of(Xo, c.n)); }
+  { PG Xp(X); Xp.pairwise_reduce(); o.b("pairwise_covers", Xp.geometrically_covers(X)).raw("Xp", Desc<PG>::of(Xp, c.n)); }
+  { PG D(X); D.difference_assign(Y); o.raw("D", Desc<PG>::of(D, c.n)); }
+  { PG M(X); M.intersection_assign(Xr); o.raw("M", Desc<PG>::of(M, c.n)); }
+  o.b("entails_rev", X.definitely_entails(Xr)).b("contains_y", X.contains(Y));
+  o.b("big", big).i("end", 0);
+  return o.str();
+}
 static LV rdv(std::istringstream& is) { size_t n; is >> n; LV v(n); for (size_t i = 0; i < n; ++i) is >> v[i]; return v; }
 static void run_history(const std::vector<std::string>& lines, int fd) {
   vj::install_terminate();
@@ -119,7 +147,8 @@ static void run_history(const std::vector<std::string>& lines, int fd) {
     is >> tag >> c.thr >> tag >> c.indiv >> tag >> c.cx;
     std::string out;
     try {
-      if (c.dom == "C") out = run_case<C_Polyhedron>(c); else if (c.dom == "NNC") out = run_case<NNC_Polyhedron>(c); else if (c.dom == "Grid") out = run_case<Grid>(c);
+      if (g_gcover) out = run_gcover(c);
+      else if (c.dom == "C") out = run_case<C_Polyhedron>(c); else if (c.dom == "NNC") out = run_case<NNC_Polyhedron>(c); else if (c.dom == "Grid") out = run_case<Grid>(c);
       else if (c.dom == "Box") out = run_case<Rational_Box>(c); else if (c.dom == "BDS") out = run_case<BD_Shape<mpq_class> >(c); else if (c.dom == "Oct") out = run_case<Octagonal_Shape<mpz_class> >(c);
       else if (c.dom == "PsetC") out = run_case<Pointset_Powerset<C_Polyhedron> >(c); else out = run_case<Pointset_Powerset<NNC_Polyhedron> >(c);
     } catch (std::exception& e) { out = std::string("{\"e\":\"Case\",\"big\":true,\"dom\":\"") + c.dom + "\"}"; }
@@ -127,6 +156,7 @@ static void run_history(const std::vector<std::string>& lines, int fd) {
   }
 }
 int main(int argc, char** argv) {
+  g_gcover = argc > 2 && std::string(argv[2]) == "gcover";
   vj::for_each_history(std::cin, argc > 1 ? atoi(argv[1]) : 20, std::cout, run_history);
   return 0;
 }
